@@ -1278,3 +1278,28 @@ func fieldCopiesComplete(w *World, r *Report, rule string, why string, typeOK fu
 	}
 	return n
 }
+
+// dagSkipFlag: the bool field of dagChannel that reportSkip stores — found by what is done with it, so that a seed that
+// renames it (to keep it out of the checkpoint) is reported by the rules about the flag instead of losing their anchor.
+func dagSkipFlag(w *World) *types.Var {
+	rs := w.Fn("compose", "dagChannel.reportSkip")
+	dcT := w.Named("compose", "dagChannel")
+	var out *types.Var
+	instrs(rs, func(in ssa.Instruction) {
+		st, ok := in.(*ssa.Store)
+		if !ok {
+			return
+		}
+		fa, ok := st.Addr.(*ssa.FieldAddr)
+		if !ok || namedOf(deref(fa.X.Type())) != dcT {
+			return
+		}
+		if b, isB := st.Val.Type().Underlying().(*types.Basic); isB && b.Kind() == types.Bool {
+			out = fieldVarOfAddr(fa)
+		}
+	})
+	if out == nil {
+		undecidedf("anchor: dagChannel.reportSkip stores no bool field (the skip flag)")
+	}
+	return out
+}
